@@ -184,6 +184,7 @@ def run_tlc(module_path, cfg=None, workers=8, simulate=None, depth=None, tseed=N
     t0 = time.time()
     tagged = []
     tail = []
+    cov_lines = []
     states = distinct = 0
     violation = None
     proc = subprocess.Popen(["timeout", str(timeout)] + cmd, cwd=d, env=env, stdout=subprocess.PIPE,
@@ -201,6 +202,8 @@ def run_tlc(module_path, cfg=None, workers=8, simulate=None, depth=None, tseed=N
             else:
                 tagged.append((m.group(1), obj))
             continue
+        if coverage and line.startswith("<") and " of module " in line and re.search(r">: \d+:\d+$", line):
+            cov_lines.append(line)          # action coverage lines are kept in full (the tail below is bounded)
         tail.append(line)
         if len(tail) > 400:
             del tail[:200]
@@ -220,7 +223,7 @@ def run_tlc(module_path, cfg=None, workers=8, simulate=None, depth=None, tseed=N
         raise ToolError(f"TLC timed out after {timeout}s on {mod}/{cfg}")
     ok = (rc == 0 and violation is None)
     return dict(states=states, distinct=distinct, tagged=tagged, ok=ok, violation=violation,
-                raw_tail="\n".join(tail[-120:]), wall=wall, rc=rc,
+                raw_tail="\n".join(cov_lines + tail[-120:]), wall=wall, rc=rc,
                 cmd="tlc -workers %s -config %s %s%s" % (workers, cfg, mod, (" -simulate num=%s" % simulate) if simulate else ""))
 
 
